@@ -130,14 +130,62 @@ def pe_history(rng, nops, name):
         s.meta[l2] = {"x": x, "cacheable": False}
     return name, s
 
+def two_unwinders(rng, arch, base, name):
+    """two unwinders whose module sets differ only in WHAT is mapped at one address, used alternately with one cache:
+    each must get the rule of its own module, wherever in the address space that address lies"""
+    s = Script(arch, "may")
+    for k, mid in ((3, "MA"), (5, "MB")):
+        f = [dict(start=0x100, len=0x100, rows=[(0, suites.std_row(arch, "frameless", k))])]
+        s.module_dwarf(mid, base, base + 0x1000, base, 0, "eh", f, rng)
+    s.mem("S", [(0x7000 + 8 * i, 0x20000 + i) for i in range(64)])
+    s.add("new U0"); s.add("new U1"); s.add("add U0 MA"); s.add("add U1 MB"); s.add("newcache C")
+    for j in range(12):
+        u = "U%d" % rng.below(2)
+        x = base + 0x180 + rng.choice([0, 0, 1, 509])
+        regs = s.regs_x86(x, 0x7000, 0x7100) if arch == "x86" else s.regs_a64(M64, 0x5555, 0x7000, 0x7100)
+        ln = s.add("unwind %s C ip %s %s S" % (u, hx(x), regs), tag="%s:two-unwinders:%s" % (arch, "high" if base >> 48 else "low"))
+        s.add("newcache F")
+        lt = s.add("unwind %s F ip %s %s S" % (u, hx(x), regs))
+        s.meta[ln] = {"twin": lt}
+    return (name, s)
+
+HIGH_BASES = [0x10000, 0xffff800000010000, 0xffffffff80000000, (1 << 48) + 0x10000, (0xabcd << 48) + 0x10000, (1 << 63) + 0x10000]
+
 def generate(rng, tier):
     out = []
+    for bi, b in enumerate(HIGH_BASES):
+        out.append(two_unwinders(rng, "x86" if bi % 2 == 0 else "a64", b, "two-%d" % bi))
     for i in range(6 if tier == "quick" else 200):
         out.append(pe_history(rng, rng.range(60, 160), "pehist-%d" % i))
     n = 24 if tier == "quick" else 1200
     for i in range(n):
         arch = "x86" if i % 2 == 0 else "a64"
         out.append(history(rng, arch, rng.range(40, 120), "hist-%s-%d" % (arch, i)))
+    # many module-set changes between two uses of one cache entry: the identity stored with a rule is the whole
+    # 16-bit identity, so only after 65 536 changes (the documented limit) may an old entry look current again
+    for k in ([256, 4096] if tier == "quick" else [255, 256, 257, 512, 1024, 4096, 8192, 32768, 65535]):
+        arch = "x86" if k % 512 == 256 else "a64"
+        s = Script(arch, "may")
+        gran = 8 if arch == "x86" else 16
+        f = [dict(start=0x100, len=0x100, rows=[(0, suites.std_row(arch, "frameless", 3))])]
+        s.module_dwarf("M", 0x10000, 0x11000, 0x10000, 0, "eh", f, rng)
+        s.module_none("D", 0x50000, 0x50100, 0x50000, 0)
+        s.mem("S", [(0x7000 + 8 * i, 0x20000 + i) for i in range(64)] + [(0x7400, 0x7500), (0x7408, 0x30000)])
+        s.add("new U"); s.add("newcache C"); s.add("add U M")
+        x = 0x10180
+        regs = s.regs_x86(x, 0x7000, 0x7400) if arch == "x86" else s.regs_a64(M64, 0x5555, 0x7000, 0x7400)
+        s.add("unwind U C ip %s %s S" % (hx(x), regs))
+        s.add("remove U 0x10000")                      # change 1: the address now belongs to no module
+        for j in range((k - 2) // 2):
+            s.add("add U D"); s.add("remove U 0x50000")
+        if (k - 2) % 2 == 1:
+            s.add("add U D")
+        s.add("add U D" if (k - 2) % 2 == 0 else "remove U 0x50000")       # change k
+        ln = s.add("unwind U C ip %s %s S" % (hx(x), regs), tag="%s:genwrap:%d" % (arch, k))
+        s.add("newcache F")
+        lt = s.add("unwind U F ip %s %s S" % (hx(x), regs))
+        s.meta[ln] = {"twin": lt}
+        out.append(("genwrap-%d" % k, s))
     return out
 
 def judge(script, impl):
